@@ -28,6 +28,17 @@ class Opaque:
     def _pv_setattr(self, ex, name, v):
         self._attrs[name] = v
 
+    def _pv_isinstance(self, ex, spec):
+        """a contract stub stands for ANY object satisfying the contract: whether it is an instance of a given library class is
+        not determined by the contract, so code that dispatches on it is explored both ways (consistently per class)"""
+        if not self._attrs.get("__any_class__", False):
+            return False
+        memo = self.__dict__.setdefault("_isinst", {})
+        key = (id(ex.ctx), spec.name)
+        if key not in memo:
+            memo[key] = bool(ex.ctx.choose(2, f"isinstance({self._name}, {spec.name})"))
+        return memo[key]
+
     def __repr__(self):
         return f"<opaque {self._name}>"
 
